@@ -948,6 +948,14 @@ func genHistory(r *hx.Rand, n int, withReopen bool) []jop {
 		return genKey(r, kindOf(ix))
 	}
 	fnames := []string{"fa", "fb"}
+	// populate first, so that iterations have something to walk over
+	for j := 4 + r.Intn(8); j > 0; j-- {
+		ix := indexNames[r.Intn(nIdx)]
+		k := genKey(r, kindOf(ix))
+		live[ix] = append(live[ix], string(k))
+		ops = append(ops, jop{Op: "put", Ix: ix, K: hexs(k), V: hexs(r.Bytes(r.Intn(3)))})
+	}
+	n += len(ops)
 	for len(ops) < n {
 		ix := indexNames[r.Intn(nIdx)]
 		kind := kindOf(ix)
@@ -979,6 +987,15 @@ func genHistory(r *hx.Rand, n int, withReopen bool) []jop {
 			if r.Chance(3, 5) {
 				// start item: mostly under the prefix; present or absent
 				s := pick(ix)
+				if l := live[ix]; len(l) > 0 && r.Bool() {
+					// a stored key under the prefix, when there is one
+					for try := 0; try < 4; try++ {
+						if c := []byte(l[r.Intn(len(l))]); bytes.HasPrefix(c, p) {
+							s = c
+							break
+						}
+					}
+				}
 				if r.Chance(4, 5) && !bytes.HasPrefix(s, p) {
 					s = append(append([]byte{}, p...), s...)
 					if kind == "bin" {
